@@ -104,6 +104,9 @@ def requests(lx, universe):
         yield ("cast_to", "".join(tgt), "")
     for sub in S.subsets(lx):
         yield ("shares", "".join(sub), "")
+        if sub:  # a dimension named twice is still that one dimension
+            yield ("shares", "".join(sub) + sub[-1], "")
+            yield ("sum_over", "".join(sub) + sub[0], "letters")
     for bad in ("z", "Zeta", "foreign-object", "absent-letter", "absent-name"):
         for op in ("sum_to", "sum_over"):
             yield (op + "-unknown", bad, "")
@@ -130,9 +133,9 @@ def run_case(pattern, lx, prov, universe, assign, req):
         want = R.marginal(mx, to)
         call = lambda: X.sum_to(styled(to, style, X))
     elif op == "sum_over":
-        over = tuple(arg)
+        over = tuple(dict.fromkeys(arg))
         want = R.marginal(mx, tuple(l for l in lx if l not in over))
-        call = lambda: X.sum_over(styled(over, style, X))
+        call = lambda: X.sum_over(styled(tuple(arg), style, X))
     elif op == "cumsum":
         want = R.cumsum(mx, arg)
         if style == "out":
@@ -153,7 +156,8 @@ def run_case(pattern, lx, prov, universe, assign, req):
         must_raise = want is None
     elif op == "shares":
         over = tuple(arg)
-        keep = tuple(l for l in lx if l not in over)
+        over_set = tuple(dict.fromkeys(arg))
+        keep = tuple(l for l in lx if l not in over_set)
         tot = R.marginal(mx, keep)
         want = R.MArr(lx, mx.items, {lab: (v / tot.data[R.project(lab, lx, keep)] if tot.data[R.project(lab, lx, keep)] != 0 else None) for lab, v in mx.data.items()})
         call = lambda: X.get_shares_over(over)
